@@ -230,7 +230,7 @@ func init() {
 		Run:         runC20,
 		Exhaustive:  true,
 		Required: []string{"cases.none", "cases.eval_error", "cases.cancel_in_eval", "cases.cancel_in_epoch_evaluated", "cases.cancel_in_trial_started",
-			"cases.cancel_in_trial_finished", "cases.cancel_mid_epoch", "cases.parallel", "cases.no_observer", "cases.runner", "runner.stopped_after_interrupt", "cases.eval_error_solved", "cases.eval_error_deadline", "cases.trials_preallocated", "cases.experiment_reused_after_longer_run", "trials.solved", "trials.unsolved", "canceled.returned"},
+			"cases.cancel_in_trial_finished", "cases.cancel_mid_epoch", "cases.parallel", "cases.no_observer", "cases.runner", "runner.stopped_after_interrupt", "cases.eval_error_solved", "cases.eval_error_deadline", "cases.trials_preallocated", "cases.experiment_reused_after_longer_run", "observer.is_the_evaluator", "observer.second_object", "observer.stateless_value", "observer.value_with_field", "evaluator.value_typed", "trials.solved", "trials.unsolved", "canceled.returned"},
 	})
 }
 
@@ -380,6 +380,40 @@ func (rec *c20Recorder) EpochEvaluated(t *experiment.Trial, g *experiment.Genera
 	}
 }
 
+// observers and evaluators of other dynamic types than the recorder itself; all of them report to a recorder
+type c20PointerObserver struct{ rec *c20Recorder }
+
+func (o *c20PointerObserver) TrialRunStarted(t *experiment.Trial)  { o.rec.TrialRunStarted(t) }
+func (o *c20PointerObserver) TrialRunFinished(t *experiment.Trial) { o.rec.TrialRunFinished(t) }
+func (o *c20PointerObserver) EpochEvaluated(t *experiment.Trial, g *experiment.Generation) {
+	o.rec.EpochEvaluated(t, g)
+}
+
+type c20ValueObserver struct{ rec *c20Recorder }
+
+func (o c20ValueObserver) TrialRunStarted(t *experiment.Trial)  { o.rec.TrialRunStarted(t) }
+func (o c20ValueObserver) TrialRunFinished(t *experiment.Trial) { o.rec.TrialRunFinished(t) }
+func (o c20ValueObserver) EpochEvaluated(t *experiment.Trial, g *experiment.Generation) {
+	o.rec.EpochEvaluated(t, g)
+}
+
+// c20Current is the recorder of the running case, for the observer type that has no state of its own
+var c20Current *c20Recorder
+
+type c20StatelessObserver struct{}
+
+func (c20StatelessObserver) TrialRunStarted(t *experiment.Trial)  { c20Current.TrialRunStarted(t) }
+func (c20StatelessObserver) TrialRunFinished(t *experiment.Trial) { c20Current.TrialRunFinished(t) }
+func (c20StatelessObserver) EpochEvaluated(t *experiment.Trial, g *experiment.Generation) {
+	c20Current.EpochEvaluated(t, g)
+}
+
+type c20ValueEvaluator struct{ rec *c20Recorder }
+
+func (e c20ValueEvaluator) GenerationEvaluate(ctx context.Context, pop *genetics.Population, epoch *experiment.Generation) error {
+	return e.rec.GenerationEvaluate(ctx, pop, epoch)
+}
+
 func (cs *c20Case) popSize() int {
 	return 6 + (cs.Runs*7+cs.Gens*3+len(cs.SolvedAt))%7
 }
@@ -462,12 +496,33 @@ func runC20(c *Ctx, idx int) {
 		}
 		c.Count("cases.experiment_reused_after_longer_run", 1)
 	}
+	// the observer comes in the forms Go allows an interface value to take: the evaluator object itself, a second object behind a
+	// pointer, a value of a type without any state (its zero value - it reports to the recorder of the running case) and a value
+	// type with a field; the evaluator is the recorder or a value that wraps it
 	var observer experiment.TrialRunObserver
+	var evaluator experiment.GenerationEvaluator = rec
+	form := int((uint32(idx)*2654435761)>>13) % 8 // (an enumeration index mixed, so that the forms spread over all patterns)
 	if cs.Observer {
-		observer = rec
+		switch form % 4 {
+		case 0:
+			observer = rec
+		case 1:
+			observer = &c20PointerObserver{rec: rec}
+		case 2:
+			c20Current = rec
+			defer func() { c20Current = nil }()
+			observer = c20StatelessObserver{}
+		case 3:
+			observer = c20ValueObserver{rec: rec}
+		}
+		c.Count([]string{"observer.is_the_evaluator", "observer.second_object", "observer.stateless_value", "observer.value_with_field"}[form%4], 1)
+	}
+	if form/4 == 1 {
+		evaluator = c20ValueEvaluator{rec: rec}
+		c.Count("evaluator.value_typed", 1)
 	}
 	startBefore := snapGenome(start)
-	runErr := exp.Execute(neat.NewContext(ctx, o), start, rec, observer)
+	runErr := exp.Execute(neat.NewContext(ctx, o), start, evaluator, observer)
 	if d := diffGenomes(startBefore, snapGenome(start)); d != "" {
 		c.Violate("start-genome-modified", map[string]interface{}{"case": cs}, "Execute modified the start genome every trial is spawned from: %s", d)
 		return
